@@ -1,12 +1,396 @@
-/- Props/C07.lean — under construction (theorems follow). -/
-import Model.Regularization
+/-
+Props/C07.lean — property C07: every regularization scheme returns a symmetric positive
+(semi-)definite matrix of the linear object's size, with the stated quadratic form.
 
-open Model
+All theorems are about the `Impl` layer of Model/Regularization.lean (the loop transliterations of
+`regularization_util.py` etc., which the driver executes against the Python), for every number of
+pixels, every neighbour table / cross-point table, every coefficient and every vector `x`, over an
+arbitrary ordered field `α` (so in particular over ℝ).  `ρ` is the code's `1e-8` ridge; only
+`0 < ρ` is used.
+
+Notation: `quad H x = Σ_i Σ_j x_i H_ij x_j`; `entry H i j = H[i,j]`; `x.getD i 0 = x_i`;
+`edges n N S` = the directed pairs `(i, N[i][j])`, `j < S[i]`, read by the loops; `pairs n N S` = those
+with `i < j` (each unordered neighbouring pair once, when the table is symmetric);
+`Symmetric n N S` = reversing all directed pairs permutes the list; `InRange n N S` = every
+neighbour index read is `< n` (otherwise numpy raises).
+-/
+import Model.Regularization
+import Proofs.Regularization
+import Proofs.RegularizationSplit
+import Proofs.RegularizationKernel
+import Proofs.RegularizationBlock
+import Mathlib.Analysis.Real.Sqrt
+import Mathlib.Analysis.Complex.Exponential
+
+open Model Model.Mat Model.Spec
+
+set_option linter.unusedSectionVars false
 
 namespace C07
 
-/-- `np.zeros((n, m))` has n rows (placeholder while the development is in progress) -/
-theorem zeros_rows (n m : Nat) : (Mat.zeros (α := Int) n m).length = n := by
-  simp [Mat.zeros]
+variable {α : Type} [Field α] [LinearOrder α] [IsStrictOrderedRing α]
+
+/-! ## (a) constant scheme -/
+
+/-- size = parameter count: `constant_regularization_matrix_from` returns an `n×n` array -/
+theorem constant_dims (ρ c : α) (N : List (List Nat)) (S : List Nat) (hR : InRange N.length N S) :
+    Dims N.length (Impl.constantMatrix ρ c N S) :=
+  (constantMatrix_linfun (linfun_entry N.length 0 0) ρ c N S rfl hR).1
+
+/-- (a) for *any* in-range neighbour table:
+    `xᵀHx = c²·Σ_i Σ_{j∈N(i)} (x_i² − x_i x_j) + ρ·Σ x_i²` -/
+theorem constant_quad (ρ c : α) (N : List (List Nat)) (S : List Nat) (hR : InRange N.length N S)
+    (x : List α) (hx : x.length = N.length) :
+    quad (Impl.constantMatrix ρ c N S) x
+      = (c * c) * ((edges N.length N S).map fun e =>
+            x.getD e.1 0 * x.getD e.1 0 - x.getD e.1 0 * x.getD e.2 0).sum
+        + ρ * sumSq x :=
+  constantMatrix_quad ρ c N S rfl hR x hx
+
+/-- (a) the property's statement: with a symmetric neighbour relation,
+    `xᵀHx = coefficient²·Σ_{neighbouring pairs {i,j}} (x_i − x_j)² + ρ·|x|²` -/
+theorem constant_quad_pairs (ρ c : α) (N : List (List Nat)) (S : List Nat)
+    (hR : InRange N.length N S) (hS : Symmetric N.length N S) (x : List α)
+    (hx : x.length = N.length) :
+    quad (Impl.constantMatrix ρ c N S) x
+      = (c * c) * ((pairs N.length N S).map fun e =>
+            (x.getD e.1 0 - x.getD e.2 0) * (x.getD e.1 0 - x.getD e.2 0)).sum
+        + ρ * sumSq x :=
+  constantMatrix_quad_pairs ρ c N S rfl hR hS x hx
+
+/-- (a) symmetric -/
+theorem constant_symm (ρ c : α) (N : List (List Nat)) (S : List Nat) (hR : InRange N.length N S)
+    (hS : Symmetric N.length N S) (i j : Nat) :
+    entry (Impl.constantMatrix ρ c N S) i j = entry (Impl.constantMatrix ρ c N S) j i :=
+  constantMatrix_symm ρ c N S rfl hR hS i j
+
+/-- (a) strictly positive definite: `xᵀHx > 0` for every `x ≠ 0` -/
+theorem constant_posdef (ρ c : α) (hρ : 0 < ρ) (N : List (List Nat)) (S : List Nat)
+    (hR : InRange N.length N S) (hS : Symmetric N.length N S) (x : List α)
+    (hx : x.length = N.length) (hx0 : ∃ i, i < N.length ∧ x.getD i 0 ≠ 0) :
+    0 < quad (Impl.constantMatrix ρ c N S) x :=
+  constantMatrix_posdef ρ c hρ N S rfl hR hS x hx hx0
+
+/-! ### constant + zeroth: the same matrix with `ρ + c₀²` on the diagonal -/
+
+theorem constant_zeroth_dims (ρ c cz : α) (N : List (List Nat)) (S : List Nat)
+    (hR : InRange N.length N S) : Dims N.length (Impl.constantZerothMatrix ρ c cz N S) :=
+  (constantZerothMatrix_linfun (linfun_entry N.length 0 0) ρ c cz N S rfl hR).1
+
+/-- constant-zeroth adds `c₀²·|x|²` -/
+theorem constant_zeroth_quad (ρ c cz : α) (N : List (List Nat)) (S : List Nat)
+    (hR : InRange N.length N S) (hS : Symmetric N.length N S) (x : List α)
+    (hx : x.length = N.length) :
+    quad (Impl.constantZerothMatrix ρ c cz N S) x
+      = (c * c) * ((pairs N.length N S).map fun e =>
+            (x.getD e.1 0 - x.getD e.2 0) * (x.getD e.1 0 - x.getD e.2 0)).sum
+        + ρ * sumSq x + (cz * cz) * sumSq x := by
+  rw [(constantZerothMatrix_linfun (linfun_quad N.length x hx) ρ c cz N S rfl hR).2,
+    constantMatrix_quad_pairs (ρ + cz * cz) c N S rfl hR hS x hx]
+  ring
+
+theorem constant_zeroth_symm (ρ c cz : α) (N : List (List Nat)) (S : List Nat)
+    (hR : InRange N.length N S) (hS : Symmetric N.length N S) (i j : Nat) :
+    entry (Impl.constantZerothMatrix ρ c cz N S) i j
+      = entry (Impl.constantZerothMatrix ρ c cz N S) j i := by
+  rw [(constantZerothMatrix_linfun (linfun_entry N.length i j) ρ c cz N S rfl hR).2,
+    (constantZerothMatrix_linfun (linfun_entry N.length j i) ρ c cz N S rfl hR).2]
+  exact constantMatrix_symm (ρ + cz * cz) c N S rfl hR hS i j
+
+theorem constant_zeroth_posdef (ρ c cz : α) (hρ : 0 < ρ) (N : List (List Nat)) (S : List Nat)
+    (hR : InRange N.length N S) (hS : Symmetric N.length N S) (x : List α)
+    (hx : x.length = N.length) (hx0 : ∃ i, i < N.length ∧ x.getD i 0 ≠ 0) :
+    0 < quad (Impl.constantZerothMatrix ρ c cz N S) x := by
+  rw [(constantZerothMatrix_linfun (linfun_quad N.length x hx) ρ c cz N S rfl hR).2]
+  exact constantMatrix_posdef (ρ + cz * cz) c (by nlinarith [mul_self_nonneg cz]) N S rfl hR hS x hx hx0
+
+/-! ## (b) adaptive (weighted) scheme -/
+
+theorem weighted_dims (ρ : α) (w : List α) (N : List (List Nat)) (S : List Nat)
+    (hR : InRange w.length N S) : Dims w.length (Impl.weightedMatrix ρ w N S) :=
+  (weightedMatrix_linfun (linfun_entry w.length 0 0) ρ w N S rfl hR).1
+
+/-- (b) for *any* in-range neighbour table: `xᵀHx = Σ_{(i,j) directed} w_j²·(x_i − x_j)² + ρ·|x|²` -/
+theorem weighted_quad (ρ : α) (w : List α) (N : List (List Nat)) (S : List Nat)
+    (hR : InRange w.length N S) (x : List α) (hx : x.length = w.length) :
+    quad (Impl.weightedMatrix ρ w N S) x
+      = ((edges w.length N S).map fun e => (w.getD e.2 0 * w.getD e.2 0)
+            * ((x.getD e.1 0 - x.getD e.2 0) * (x.getD e.1 0 - x.getD e.2 0))).sum
+        + ρ * sumSq x :=
+  weightedMatrix_quad ρ w N S rfl hR x hx
+
+/-- (b) the property's statement: with a symmetric neighbour relation the pair `{i,j}` is weighted
+    by `w_i² + w_j²`, `w` being the `regularization_weights` handed to the function -/
+theorem weighted_quad_pairs (ρ : α) (w : List α) (N : List (List Nat)) (S : List Nat)
+    (hR : InRange w.length N S) (hS : Symmetric w.length N S) (x : List α)
+    (hx : x.length = w.length) :
+    quad (Impl.weightedMatrix ρ w N S) x
+      = ((pairs w.length N S).map fun e =>
+            (w.getD e.1 0 * w.getD e.1 0 + w.getD e.2 0 * w.getD e.2 0)
+              * ((x.getD e.1 0 - x.getD e.2 0) * (x.getD e.1 0 - x.getD e.2 0))).sum
+        + ρ * sumSq x :=
+  weightedMatrix_quad_pairs ρ w N S rfl hR hS x hx
+
+/-- (b) symmetric, even for an asymmetric neighbour table -/
+theorem weighted_symm (ρ : α) (w : List α) (N : List (List Nat)) (S : List Nat)
+    (hR : InRange w.length N S) (i j : Nat) :
+    entry (Impl.weightedMatrix ρ w N S) i j = entry (Impl.weightedMatrix ρ w N S) j i :=
+  weightedMatrix_symm ρ w N S rfl hR i j
+
+/-- (b) strictly positive definite, even for an asymmetric neighbour table -/
+theorem weighted_posdef (ρ : α) (hρ : 0 < ρ) (w : List α) (N : List (List Nat)) (S : List Nat)
+    (hR : InRange w.length N S) (x : List α) (hx : x.length = w.length)
+    (hx0 : ∃ i, i < w.length ∧ x.getD i 0 ≠ 0) :
+    0 < quad (Impl.weightedMatrix ρ w N S) x :=
+  weightedMatrix_posdef ρ hρ w N S rfl hR x hx hx0
+
+/-- (b) the weights in the matrix are the ones the scheme itself reports:
+    `AdaptiveBrightness.regularization_matrix_from` is `weighted_regularization_matrix_from` applied to
+    `AdaptiveBrightness.regularization_weights_from` of the same object -/
+theorem adaptive_scheme_uses_reported_weights (env : Impl.Env α) (inner outer : α)
+    (o : Impl.LinObj α) :
+    Impl.schemeMatrix env (.adaptiveBrightness inner outer) o
+      = .ok (Impl.weightedMatrix env.ridge
+          (Impl.schemeWeights (.adaptiveBrightness inner outer) o) o.neighbors o.sizes) := rfl
+
+/-! ## (c) zeroth-order schemes: diagonal, positive semi-definite -/
+
+theorem zeroth_dims (c : α) (n : Nat) : Dims n (Impl.zerothMatrix c n) :=
+  (zerothMatrix_linfun (linfun_entry n 0 0) c).1
+
+/-- (c) `Zeroth`: `H = c²·I` -/
+theorem zeroth_entry (c : α) (n i j : Nat) :
+    entry (Impl.zerothMatrix c n) i j = if i = j ∧ i < n then c * c else 0 :=
+  zerothMatrix_entry n c i j
+
+theorem zeroth_quad (c : α) (n : Nat) (x : List α) (hx : x.length = n) :
+    quad (Impl.zerothMatrix c n) x = (c * c) * sumSq x :=
+  zerothMatrix_quad n c x hx
+
+/-- (c) positive semi-definite -/
+theorem zeroth_psd (c : α) (n : Nat) (x : List α) (hx : x.length = n) :
+    0 ≤ quad (Impl.zerothMatrix c n) x := by
+  rw [zerothMatrix_quad n c x hx]
+  exact mul_nonneg (mul_self_nonneg c) (sumSq_nonneg x)
+
+/-- (c) positive definite when the coefficient is non-zero -/
+theorem zeroth_posdef (c : α) (hc : c ≠ 0) (n : Nat) (x : List α) (hx : x.length = n)
+    (hx0 : ∃ i, i < n ∧ x.getD i 0 ≠ 0) : 0 < quad (Impl.zerothMatrix c n) x := by
+  rw [zerothMatrix_quad n c x hx]
+  exact mul_pos (mul_self_pos.mpr hc) (sumSq_pos x (by rw [hx]; exact hx0))
+
+theorem brightness_zeroth_dims (w : List α) : Dims w.length (Impl.brightnessZerothMatrix w) :=
+  (brightnessZerothMatrix_linfun (linfun_entry w.length 0 0) w rfl).1
+
+/-- (c) `BrightnessZeroth`: `H = diag(w_i²)` -/
+theorem brightness_zeroth_entry (w : List α) (i j : Nat) :
+    entry (Impl.brightnessZerothMatrix w) i j
+      = if i = j ∧ i < w.length then w.getD i 0 * w.getD i 0 else 0 :=
+  brightnessZerothMatrix_entry w.length w rfl i j
+
+theorem brightness_zeroth_quad (w : List α) (x : List α) (hx : x.length = w.length) :
+    quad (Impl.brightnessZerothMatrix w) x
+      = sumRange w.length fun i => (w.getD i 0 * w.getD i 0) * (x.getD i 0 * x.getD i 0) :=
+  brightnessZerothMatrix_quad w.length w rfl x hx
+
+theorem brightness_zeroth_psd (w : List α) (x : List α) (hx : x.length = w.length) :
+    0 ≤ quad (Impl.brightnessZerothMatrix w) x := by
+  rw [brightnessZerothMatrix_quad w.length w rfl x hx]
+  exact sumRange_nonneg _ _ fun i _ => mul_nonneg (mul_self_nonneg _) (mul_self_nonneg _)
+
+/-! ## (d) split-cross schemes
+
+`SplitInRange p mp S`: every pixel index read from a cross-point row is `< p`;
+`SplitDistinct p mp S`: the indices read from one row are pairwise distinct (true of Delaunay
+simplices plus the appended centre pixel; checked on every generated case).
+`crossDot mp S W x k = Σ_{l<S[k]} W[k][l]·x[mp[k][l]]` is the row's vector applied to `x`;
+`ρ₂` is the code's `2e-8`, halved with the rest of the diagonal. -/
+
+theorem split_dims (ρ2 : α) (ω : List α) (mp : List (List Nat)) (S : List Nat) (W : List (List α))
+    (hR : SplitInRange (mp.length / 4) mp S) :
+    Dims (mp.length / 4) (Impl.pixelSplittedMatrix ρ2 ω mp S W) :=
+  pixelSplittedMatrix_dims ρ2 ω mp S W rfl hR
+
+/-- (d) `H = (ρ₂/2)·I + Σ_i ω_i² Σ_{j<4} v_{4i+j} v_{4i+j}ᵀ` as a quadratic form -/
+theorem split_quad (ρ2 : α) (ω : List α) (mp : List (List Nat)) (S : List Nat) (W : List (List α))
+    (hR : SplitInRange (mp.length / 4) mp S) (hD : SplitDistinct (mp.length / 4) mp S)
+    (x : List α) (hx : x.length = mp.length / 4) :
+    quad (Impl.pixelSplittedMatrix ρ2 ω mp S W) x
+      = (ρ2 / (1 + 1)) * sumSq x
+        + sumRange (mp.length / 4) fun i => sumRange 4 fun j =>
+            (ω.getD i 0 * ω.getD i 0)
+              * (crossDot mp S W x (i * 4 + j) * crossDot mp S W x (i * 4 + j)) :=
+  pixelSplittedMatrix_quad (by rw [one_add_one_eq_two]; exact two_ne_zero) ρ2 ω mp S W rfl hR hD x hx
+
+/-- (d) symmetric (for any in-range tables) -/
+theorem split_symm (ρ2 : α) (ω : List α) (mp : List (List Nat)) (S : List Nat) (W : List (List α))
+    (hR : SplitInRange (mp.length / 4) mp S) (a b : Nat) :
+    entry (Impl.pixelSplittedMatrix ρ2 ω mp S W) a b
+      = entry (Impl.pixelSplittedMatrix ρ2 ω mp S W) b a :=
+  pixelSplittedMatrix_symm ρ2 ω mp S W rfl hR a b
+
+/-- (d) strictly positive definite -/
+theorem split_posdef (ρ2 : α) (hρ : 0 < ρ2) (ω : List α) (mp : List (List Nat)) (S : List Nat)
+    (W : List (List α)) (hR : SplitInRange (mp.length / 4) mp S)
+    (hD : SplitDistinct (mp.length / 4) mp S) (x : List α) (hx : x.length = mp.length / 4)
+    (hx0 : ∃ i, i < mp.length / 4 ∧ x.getD i 0 ≠ 0) :
+    0 < quad (Impl.pixelSplittedMatrix ρ2 ω mp S W) x :=
+  pixelSplittedMatrix_posdef ρ2 hρ ω mp S W rfl hR hD x hx hx0
+
+/-- (d) what the two split classes compute: `reg_split_from` on the mapper's cross tables, then the
+    matrix above with `ω = coefficient` (constant) or `ω =` the reported adaptive weights -/
+theorem split_schemes_unfold (env : Impl.Env α) (c inner outer : α) (o : Impl.LinObj α) :
+    Impl.schemeMatrix env (.constantSplit c) o
+        = Impl.splitSchemeMatrix env.ridge2 (List.replicate (o.split.mappings.length / 4) c) o.split
+    ∧ Impl.schemeMatrix env (.adaptiveBrightnessSplit inner outer) o
+        = Impl.splitSchemeMatrix env.ridge2
+            (Impl.schemeWeights (.adaptiveBrightnessSplit inner outer) o) o.split :=
+  ⟨rfl, rfl⟩
+
+/-! ## (e) kernel schemes — partial
+
+Proved: the covariance matrix built by the double loop has entries `k(d_ij) + ρ·[i=j]`, is symmetric,
+has unit-plus-ridge diagonal; and **if** it is positive definite then `coefficient · inv(C)` is
+symmetric positive definite, for any `inv` meeting the contract `C · inv(C) = I`.
+NOT proved (full clause, left to the exact-rational LDLᵀ test of the harness): that the Gaussian /
+exponential kernel matrix of distinct points is itself positive definite.
+
+`IsSymm n M`, `IsPosDef n M`, `IsRightInverse n C B` are the list-matrix statements of symmetry,
+`xᵀMx > 0 ∀ x ≠ 0`, and `C·B = I`. -/
+
+/-- (e) covariance entries (both kernels; `k` is the kernel as a function of `d_ij`) -/
+theorem kernel_cov_entry (k sqrt : α → α) (ρ : α) (pts : List (α × α)) (a b : Nat)
+    (ha : a < pts.length) (hb : b < pts.length) :
+    entry (Impl.covMatrix k sqrt ρ pts) a b
+      = (if a = b then ρ else 0) + k (sqrt (dist2 pts a b)) :=
+  covMatrix_entry k sqrt ρ pts rfl a b ha hb
+
+/-- (e) covariance symmetric -/
+theorem kernel_cov_symm (k sqrt : α → α) (ρ : α) (pts : List (α × α)) :
+    IsSymm pts.length (Impl.covMatrix k sqrt ρ pts) :=
+  fun a b ha hb => covMatrix_symm k sqrt ρ pts rfl a b ha hb
+
+/-- (e) unit-plus-ridge diagonal for the Gaussian and the exponential kernel -/
+theorem kernel_cov_diag (exp sqrt : α → α) (hs : sqrt 0 = 0) (he : exp 0 = 1) (ρ scale : α)
+    (pts : List (α × α)) (a : Nat) (ha : a < pts.length) :
+    entry (Impl.covMatrix (Impl.gaussKernel exp scale) sqrt ρ pts) a a = ρ + 1
+    ∧ entry (Impl.covMatrix (Impl.expKernel exp scale) sqrt ρ pts) a a = ρ + 1 := by
+  constructor
+  · rw [covMatrix_entry _ sqrt ρ pts rfl a a ha ha, dist2_self, hs]
+    simp [Impl.gaussKernel, he]
+  · rw [covMatrix_entry _ sqrt ρ pts rfl a a ha ha, dist2_self, hs]
+    simp [Impl.expKernel, he]
+
+/-- (e, partial) if the covariance matrix is positive definite and `inv` inverts it, the matrix both
+    kernel classes return (`coefficient * np.linalg.inv(covariance_matrix)`) is symmetric positive
+    definite -/
+theorem kernel_reg_posdef_partial (env : Impl.Env α) (c scale : α) (hc : 0 < c) (o : Impl.LinObj α)
+    (k : α → α) (s : Impl.Scheme α)
+    (hs : (s = .gaussianKernel c scale ∧ k = Impl.gaussKernel env.exp scale)
+        ∨ (s = .exponentialKernel c scale ∧ k = Impl.expKernel env.exp scale))
+    (hpd : IsPosDef o.points.length (Impl.covMatrix k env.sqrt env.ridge o.points))
+    (hinv : IsRightInverse o.points.length (Impl.covMatrix k env.sqrt env.ridge o.points)
+              (env.inv (Impl.covMatrix k env.sqrt env.ridge o.points))) :
+    ∃ H, Impl.schemeMatrix env s o = .ok H ∧ IsSymm o.points.length H ∧ IsPosDef o.points.length H := by
+  obtain ⟨hB1, hB2⟩ := inv_symm_posdef _ _ (kernel_cov_symm k env.sqrt env.ridge o.points) hpd hinv
+  refine ⟨smul c (env.inv (Impl.covMatrix k env.sqrt env.ridge o.points)), ?_, ?_, ?_⟩
+  · rcases hs with ⟨rfl, rfl⟩ | ⟨rfl, rfl⟩ <;> rfl
+  · intro i j hi hj
+    rw [entry_smul, entry_smul, hB1 i j hi hj]
+  · intro x hx hx0
+    rw [quad_smul]
+    exact mul_pos hc (hB2 x hx hx0)
+
+/-! ## (f) assembly over the linear objects -/
+
+/-- (f) an object without a regularization scheme contributes the all-zero `params × params` block -/
+theorem linear_obj_without_scheme_zero_block (params i j : Nat) :
+    Dims params (Impl.linearObjMatrix (α := α) params none)
+    ∧ entry (Impl.linearObjMatrix (α := α) params none) i j = 0 :=
+  ⟨dims_zeros params, entry_zeros params params i j⟩
+
+/-- (f) size of the assembled matrix = total parameter count -/
+theorem block_diag_dims (objs : List (Nat × Option (List (List α))))
+    (h : ∀ o ∈ objs, ∀ H, o.2 = some H → Dims o.1 H) :
+    Dims ((objs.map (·.1)).sum) (Impl.inversionMatrix objs) := by
+  have hall : AllDims (objs.map fun o => (o.1, Impl.linearObjMatrix o.1 o.2)) := by
+    intro o ho
+    obtain ⟨o', ho', rfl⟩ := List.mem_map.mp ho
+    cases h2 : o'.2 with
+    | none => simp only [Impl.linearObjMatrix]; exact dims_zeros _
+    | some H => simp only [Impl.linearObjMatrix]; exact h o' ho' H h2
+  have := blockDiag_dims _ hall
+  simpa [Impl.inversionMatrix, totalParams, List.map_map, Function.comp_def] using this
+
+/-- (f) blocks are placed in the order of the linear objects: the `(a,b)` entry of object `k`'s own
+    matrix sits at `(offset k + a, offset k + b)`, `offset k` = parameter count of the objects before
+    it; entries coupling different objects are zero -/
+theorem block_diag_entry (objs : List (Nat × List (List α))) (h : AllDims objs)
+    (k k' : Nat) (hk : k < objs.length) (hk' : k' < objs.length) (a b : Nat)
+    (ha : a < (objs.getD k (0, [])).1) (hb : b < (objs.getD k' (0, [])).1) :
+    entry (blockDiag objs) (offset objs k + a) (offset objs k' + b)
+      = if k = k' then entry (objs.getD k (0, [])).2 a b else 0 :=
+  blockDiag_entry objs h k k' hk hk' a b ha hb
+
+/-- (f) hence `xᵀHx` of the assembled matrix is the sum of the objects' own quadratic forms (so it is
+    PSD when every block is, and an unregularized object contributes nothing) -/
+theorem block_diag_quad (n : Nat) (B : List (List α)) (hB : Dims n B)
+    (rest : List (Nat × List (List α))) (x y : List α) (hx : x.length = n) :
+    quad (blockDiag ((n, B) :: rest)) (x ++ y) = quad B x + quad (blockDiag rest) y :=
+  blockDiag_cons_quad n B hB rest x y hx
+
+/-! ## non-vacuity: concrete instances meeting the hypotheses -/
+
+/-- a 3-pixel chain 0–1–2 (the neighbour table of a 1×3 strip): in range, symmetric, and the constant
+    scheme's matrix is the expected tridiagonal one -/
+example :
+    let N : List (List Nat) := [[1, 0], [0, 2], [1, 0]]
+    let S : List Nat := [1, 2, 1]
+    InRange 3 N S ∧ Symmetric 3 N S ∧ pairs 3 N S = [(0, 1), (1, 2)]
+    ∧ Impl.constantMatrix (1 : Int) 2 N S = [[5, -4, 0], [-4, 9, -4], [0, -4, 5]]
+    ∧ Impl.weightedMatrix (0 : Int) [1, 2, 3] N S = [[5, -5, 0], [-5, 18, -13], [0, -13, 13]] := by
+  decide
+
+/-- one pixel with its four cross rows (two of them already containing the pixel): the tables are in
+    range and distinct -/
+example :
+    let mp : List (List Nat) := [[0, 1], [1, 0], [0, 1], [1, 0], [1, 0], [0, 1], [1, 0], [0, 1]]
+    let S : List Nat := [2, 2, 2, 2, 2, 2, 2, 2]
+    SplitInRange (mp.length / 4) mp S ∧ SplitDistinct (mp.length / 4) mp S := by
+  refine ⟨?_, ?_⟩
+  · intro k hk l hl
+    have hk' : k < 8 := by simpa using hk
+    interval_cases k <;> simp at hl <;> interval_cases l <;> decide
+  · intro k hk l l' hl hl' h
+    have hk' : k < 8 := by simpa using hk
+    interval_cases k <;> simp at hl hl' <;> interval_cases l <;> interval_cases l' <;> simp_all
+
+/-- the libm hypotheses of (e) hold for the real functions -/
+example : Real.sqrt 0 = 0 ∧ Real.exp 0 = 1 := ⟨Real.sqrt_zero, Real.exp_zero⟩
+
+/-- the hypotheses of the conditional clause (e) are satisfiable: one point, `C = [[1 + ρ]]` -/
+example :
+    let C : List (List ℚ) := Impl.covMatrix (fun _ => 1) id (1 / 100) [((0 : ℚ), (0 : ℚ))]
+    IsPosDef 1 C ∧ IsRightInverse 1 C [[100 / 101]] := by
+  have hC : Impl.covMatrix (fun _ => (1 : ℚ)) id (1 / 100) [((0 : ℚ), (0 : ℚ))] = [[101 / 100]] := by
+    norm_num [Impl.covMatrix, Mat.addAt, Mat.zeros, List.range, List.range.loop, List.modify]
+  simp only [hC]
+  constructor
+  · intro x hx hx0
+    obtain ⟨i, hi, hne⟩ := hx0
+    have hi0 : i = 0 := by omega
+    subst hi0
+    match x, hx with
+    | [a], _ =>
+      have ha : a ≠ 0 := by simpa using hne
+      have : 0 < a * a := mul_self_pos.mpr ha
+      simp only [quad, sumRange, entry, List.length_singleton, List.range_one, List.map_cons,
+        List.map_nil, List.sum_cons, List.sum_nil, List.getD_cons_zero, add_zero]
+      nlinarith
+  · intro i j hi hj
+    have hi0 : i = 0 := by omega
+    have hj0 : j = 0 := by omega
+    subst hi0; subst hj0
+    norm_num [sumRange, entry]
 
 end C07
